@@ -51,7 +51,7 @@ def isMissingMarker (s : Str) : Bool := Gen.missingIsMarker.contains (normalize 
 inductive Msg
   | dup (name : Str) (pos : Nat)         -- "Duplicate column '<name>' at position <pos> …"
   | missingRow (row : Nat)               -- "Missing data in row <row> …"
-  | illegal (vtype : Str)                -- "Illegal value '<v>' for unit '<vtype> ' …"
+  | illegal (vtype : Str) (value : Str)  -- "Illegal value '<value>' for unit '<vtype> ' …"
   deriving DecidableEq, Repr
 
 /-- configuration of a ParseFixer (stock: stop_on_errors = 1, NaN / NaT / False replacements) -/
@@ -74,8 +74,9 @@ structure Fixer where
 
 def Fixer.fixes (f : Fixer) : Nat := f.errors + f.warnings
 def Fixer.reset (f : Fixer) : Fixer := { f with errors := 0, warnings := 0 }
-def Fixer.illegal (f : Fixer) (vtype : String) : Fixer :=
-  { f with warnings := f.warnings + 1, msgs := f.msgs ++ [.illegal vtype.toList] }
+/-- `fix_illegal_cell_value(vtype, value)`: one warning, one message quoting `str(value)` -/
+def Fixer.illegal (f : Fixer) (vtype : String) (value : Str) : Fixer :=
+  { f with warnings := f.warnings + 1, msgs := f.msgs ++ [.illegal vtype.toList value] }
 
 /-! ## column parsers (columns.py) -/
 
@@ -102,16 +103,19 @@ def onoffCell : Cell → Option Bool
 
 /-- the common loop of the onoff and numeric parsers: a cell without a value is handed to the fixer,
     which counts a warning and supplies its replacement -/
-def parseWith {α : Type} (cellFn : Cell → Option α) (rep : FixCfg → α) (vt : String) :
+def parseWith {α : Type} (cellFn : Cell → Option α) (rep : FixCfg → α) (vt : String) (txt : Cell → Str) :
     List Cell → Fixer → List α × Fixer
   | [], f => ([], f)
   | c :: cs, f =>
     match cellFn c with
-    | some b => let r := parseWith cellFn rep vt cs f; (b :: r.1, r.2)
-    | none => let r := parseWith cellFn rep vt cs (f.illegal vt); (rep f.cfg :: r.1, r.2)
+    | some b => let r := parseWith cellFn rep vt txt cs f; (b :: r.1, r.2)
+    | none => let r := parseWith cellFn rep vt txt cs (f.illegal vt (txt c)); (rep f.cfg :: r.1, r.2)
+
+/-- the value the onoff parser hands to the fixer: the raw cell -/
+def onoffTxt (c : Cell) : Str := c.pyStr
 
 def parseOnoff (cells : List Cell) (f : Fixer) : List Bool × Fixer :=
-  parseWith onoffCell (·.repOnoff) "onoff" cells f
+  parseWith onoffCell (·.repOnoff) "onoff" onoffTxt cells f
 
 /-- what the harness sends as `repr(float(i))` when `float(i)` raises OverflowError -/
 def overflowTok : Str := "OverflowError".toList
@@ -125,13 +129,17 @@ def floatCell (ext : Ext) : Cell → Option Str
   | .none => some NaN
   | _ => none
 
+/-- the value the numeric parser hands to the fixer: a string after `normalize_if_str`, else the raw cell -/
+def floatTxt : Cell → Str
+  | .str s => normalize s
+  | c => c.pyStr
+
 def parseFloat (ext : Ext) (cells : List Cell) (f : Fixer) : List Str × Fixer :=
-  parseWith (floatCell ext) (·.repFloat) "float" cells f
+  parseWith (floatCell ext) (·.repFloat) "float" floatTxt cells f
 
 inductive DtCell
   | ok (tok : Str)
   | fix                       -- handed to the fixer
-  | raiseValue                -- `raise ValueError(...)` directly
   | raises (name : Str)       -- another exception class escaping `pd.to_datetime`
 
 def dtCell (ext : Ext) : Cell → DtCell
@@ -149,20 +157,31 @@ def dtCell (ext : Ext) : Cell → DtCell
           | .valueError => .fix
           | .raises n => .raises n
       else .fix
-  | _ => .raiseValue
+  | _ => .fix                 -- a number, bool, date &c.: an illegal cell like any other
+
+/-- the value the datetime parser hands to the fixer: a string stripped, else the raw cell -/
+def dtTxt : Cell → Str
+  | .str s => strip s
+  | c => c.pyStr
 
 def parseDatetime (ext : Ext) : List Cell → Fixer → Except PyExc (List Str × Fixer)
   | [], f => .ok ([], f)
   | c :: cs, f =>
     match dtCell ext c with
     | .ok t => do let (r, f') ← parseDatetime ext cs f; pure (t :: r, f')
-    | .fix => do let (r, f') ← parseDatetime ext cs (f.illegal "datetime"); pure (f.cfg.repDt :: r, f')
-    | .raiseValue => .error .valueError
+    | .fix => do
+      let (r, f') ← parseDatetime ext cs (f.illegal "datetime" (dtTxt c)); pure (f.cfg.repDt :: r, f')
     | .raises n => .error (.other n)
+
+/-- a numpy fixed-width unicode array drops the trailing NUL characters of every element -/
+def rstripNul (s : Str) : Str := (s.reverse.dropWhile (· = '\x00')).reverse
+
+/-- one cell of a text column: `np.array(values, dtype=str)` is `str(cell)` minus trailing NULs -/
+def textCell (c : Cell) : Str := rstripNul c.pyStr
 
 /-- `parse_column`: dispatch on the (stripped) unit indicator -/
 def parseColumn (ext : Ext) (unit : Str) (cells : List Cell) (f : Fixer) : Except PyExc (ColVals × Fixer) :=
-  if unit = uText then .ok (.text (cells.map Cell.pyStr), f)
+  if unit = uText then .ok (.text (cells.map textCell), f)
   else if unit = uOnoff then
     let (v, f') := parseOnoff cells f; .ok (.onoff v, f')
   else if unit = uDatetime then do
@@ -196,9 +215,11 @@ def pad3 (n : Nat) : Str :=
   let s := natToStr n
   List.replicate (3 - s.length) '0' ++ s
 
-/-- `fix_duplicate_column_name`: first `<name>_fixed_NNN` not among the names so far -/
+/-- `fix_duplicate_column_name`: first `<name>_fixed_NNN` (`itertools.count()`, at least three digits) not among
+    the names so far.  The search is unbounded in the code; it ends within `existing.length + 1` candidates
+    (they are pairwise different), which is the fuel `dupStep` supplies — the `0` arm is never reached. -/
 def freeName (cname : Str) (existing : List Str) : Nat → Nat → Str
-  | _, 0 => "{column_name}-fixed".toList
+  | sq, 0 => cname ++ "_fixed_".toList ++ pad3 sq
   | sq, fuel + 1 =>
     let test := cname ++ "_fixed_".toList ++ pad3 sq
     if existing.contains test then freeName cname existing (sq + 1) fuel else test
@@ -206,7 +227,7 @@ def freeName (cname : Str) (existing : List Str) : Nat → Nat → Str
 def dupStep (acc : List Str × Fixer) (p : Str × Nat) : List Str × Fixer :=
   if !acc.1.contains p.1 then (acc.1 ++ [p.1], acc.2)
   else
-    (acc.1 ++ [freeName p.1 acc.1 0 1000],
+    (acc.1 ++ [freeName p.1 acc.1 0 (acc.1.length + 1)],
      { acc.2 with errors := acc.2.errors + 1, msgs := acc.2.msgs ++ [.dup p.1 p.2] })
 
 /-- `_fix_duplicate_column_names`: a name already seen is replaced and counted as an error -/
